@@ -36,6 +36,24 @@ def run(sid, n):
                 passed.add(f"{tc.get('classname')}::{tc.get('name')}")
         os.remove(jx)
         missing = sorted(STABLE - passed)
+        if missing and len(missing) <= 60:
+            # second chance, alone and with a long timeout (the machine may be loaded)
+            ids = []
+            for cid in missing:
+                cls, name = cid.split('::', 1)
+                parts = cls.split('.')
+                for k in range(len(parts), 0, -1):
+                    f = os.path.join(wt, *parts[:k]) + '.py'
+                    if os.path.isfile(f):
+                        ids.append('/'.join(parts[:k]) + '.py::' + '::'.join(parts[k:] + [name]))
+                        break
+            subprocess.run(['/venv/bin/python', '-m', 'pytest', '-q', '-p', 'no:cacheprovider', '--timeout=3000', '-n', '2', f'--junitxml={jx}'] + ids, cwd=wt, env=env, capture_output=True, text=True)
+            if os.path.isfile(jx):
+                for tc in ET.parse(jx).iter('testcase'):
+                    if not any(c.tag in ('failure', 'error', 'skipped') for c in tc):
+                        passed.add(f"{tc.get('classname')}::{tc.get('name')}")
+                os.remove(jx)
+            missing = sorted(STABLE - passed)
         return sid, 'ok' if not missing else 'FAILS', missing
     finally:
         subprocess.run(['git', '-C', '/repo', 'worktree', 'remove', '--force', wt], capture_output=True)
